@@ -416,7 +416,7 @@ def run_check(prop, obligations, tier, level='model_checking', assumptions=None,
                 '(paths are distinct by construction of the path tree). Counted inside the harness (vlib.hx.verdict).',
         'samples': samples or [{'note': 'no twin sample available'}],
         'exhaustive': bool(all_exhaustive and not inconclusive and not harness_errors),
-        'obligations': per_ob,
+        'obligation_details': per_ob,
         'queries': int(tot['queries']),
         'solver_s': round(tot['solver_s'], 2),
         'inconclusive': inconclusive,
